@@ -16,6 +16,7 @@
 //          so `--mode risky --only K` replays such a case.
 #include "common.h"
 #include <unistd.h>
+#include <map>
 #if defined(__SANITIZE_ADDRESS__)
 #include <sanitizer/lsan_interface.h>
 #define C01_LSAN_DISABLE __lsan::ScopedDisabler c01_lsan_disabler
@@ -500,6 +501,7 @@ struct Exh {
 struct VpscInc {
     typedef vpsc::Variable Var; typedef vpsc::Constraint Con; typedef vpsc::IncSolver Solver;
     static const char *impl() { return "vpsc-inc"; }
+    static bool isStatic() { return false; }
     static void add(Solver &s, Con *c) { s.addConstraint(c); }
     static bool satisfy(Solver &s) { return s.satisfy(); }
     static bool solve(Solver &s) { return s.solve(); }
@@ -507,6 +509,7 @@ struct VpscInc {
 struct AvoidInc {
     typedef Avoid::Variable Var; typedef Avoid::Constraint Con; typedef Avoid::IncSolver Solver;
     static const char *impl() { return "avoid-inc"; }
+    static bool isStatic() { return false; }
     static void add(Solver &s, Con *c) { s.addConstraint(c); }
     static bool satisfy(Solver &s) { return s.satisfy(); }
     static bool solve(Solver &s) { return s.solve(); }
@@ -514,6 +517,7 @@ struct AvoidInc {
 struct VpscStatic {
     typedef vpsc::Variable Var; typedef vpsc::Constraint Con; typedef vpsc::Solver Solver;
     static const char *impl() { return "vpsc-static"; }
+    static bool isStatic() { return true; }
     static void add(Solver &, Con *) { abort(); }           // the static solver has no addConstraint
     // vpsc::Solver::satisfy leaks its vList when it throws: known, excluded from leak checking
     static bool satisfy(Solver &s) { C01_LSAN_DISABLE; return s.satisfy(); }
@@ -587,6 +591,17 @@ static void runCase(long k, const Problem &p, int m0, const std::vector<POp> &op
             if (cs[j]->active) act[j] = '1';
         }
         printf("uns %zu %s\nact %zu %s\n", t, uns.c_str(), t, act.c_str());
+        if (T::isStatic() && !stop) {
+            // block partition: every variable's block named by the smallest variable id in it
+            std::map<const void *, int> rep;
+            for (int i = 0; i < p.n; ++i) {
+                const void *b = (const void *) vs[i]->block;
+                if (!rep.count(b)) rep[b] = i;
+            }
+            printf("sblk %zu", t);
+            for (int i = 0; i < p.n; ++i) printf(" %d", rep[(const void *) vs[i]->block]);
+            printf("\n");
+        }
     }
     delete solver;
     for (size_t j = 0; j < cs.size(); ++j) delete cs[j];
